@@ -93,3 +93,24 @@ Example single_interrupt_run_exists :
   let r := run_intr P0 ex_cfg 2 [[0]; [4]; [1]; [2]; [3]; []; []] (Some 14) None in
   fst r = IRaised KI /\ nstarts (snd r) = 2.
 Proof. vm_compute. split; reflexivity. Qed.
+
+(* ---- below the granularity of the tick model: the statements of _start_processes that launch one worker (Model/Launch.v).
+   With the statement order read from the current source, an interrupt landing before any of them finds the future in the
+   pending table or in the running table — so cancel() or stop()/the liveness check will reach it, the draining loop cannot
+   wait for a future nobody will ever complete — and never finds a started worker the executor does not know.  (Defect D13:
+   the original order removed the future first.) *)
+Require Import LT.Model.Launch LT.Proofs.LaunchProofs.
+Theorem C14_launch_never_loses_future : forall i t k, mem i (t_pending t) = true ->
+  tracked i (interrupted_at launch_order_src i t k) = true.
+Proof. exact launch_tracked. Qed.
+Print Assumptions C14_launch_never_loses_future.
+
+Theorem C14_launch_no_orphan_worker : forall i t k, mem i (t_started t) = false ->
+  no_orphan i (interrupted_at launch_order_src i t k) = true.
+Proof. exact launch_no_orphan. Qed.
+Print Assumptions C14_launch_no_orphan_worker.
+
+Theorem C14_remove_first_refuted : exists i t k,
+  mem i (t_pending t) = true /\ tracked i (interrupted_at RemoveThenRegister i t k) = false.
+Proof. exact remove_first_refuted. Qed.
+Print Assumptions C14_remove_first_refuted.
